@@ -52,6 +52,8 @@ type WCellEv struct {
 	SepZeroEnt   int       `json:"sepZeroEnt"` // 1: the separator function reports entropy 0 although it is random
 	Grp          int       `json:"grp"`        // >0: all wcells with this group describe the same word multiset and recipe
 	Times        int       `json:"times"`      // how many constructions produced exactly this outcome
+	Aliased      int       `json:"aliased"`    // 1: the list changed when the caller later overwrote the slice it had passed in
+	PrevChg      int       `json:"prevChg"`    // >0: an earlier password changed when a later one was generated
 }
 
 func wlPublic(r spg.WLRecipe) []interface{} {
@@ -72,12 +74,22 @@ func runWLReps(em *Emitter, id int, sc Scenario, seed int64) {
 	}
 	seen := map[string]*outcome{}
 	order := []string{}
+	bufs := map[int][]string{} // the caller reuses ONE buffer per length for its successive lists
 	for rep := 0; rep < sc.Reps; rep++ {
-		in := append([]string{}, base...)
+		in0 := append([]string{}, base...)
 		for k := rng.Intn(3); k > 0 && len(base) > 0; k-- { // repetitions
-			in = append(in, base[rng.Intn(len(base))])
+			in0 = append(in0, base[rng.Intn(len(base))])
 		}
-		rng.Shuffle(len(in), func(i, j int) { in[i], in[j] = in[j], in[i] })
+		rng.Shuffle(len(in0), func(i, j int) { in0[i], in0[j] = in0[j], in0[i] })
+		if rep%50 == 49 && len(in0) > 0 && len(in0) < 100 { // now and then other content in the same buffer
+			in0[0] = fmt.Sprintf("zq%dx", rep)
+		}
+		in := bufs[len(in0)]
+		if in == nil {
+			in = make([]string, len(in0))
+			bufs[len(in0)] = in
+		}
+		copy(in, in0)
 		w := *sc.WL
 		w.Words = CPsList(in)
 		cell := WCellEv{Op: "wcell", ID: id, Tag: sc.Tag, WL: w, Titles: [][]int{}, Kept: [][]int{}, KeptTitles: [][]int{}, MaxTrials: spg.MaxTrials,
@@ -123,6 +135,17 @@ func runWLReps(em *Emitter, id int, sc Scenario, seed int64) {
 		}
 		if !reflect.DeepEqual(in, inCopy) {
 			cell.InputTouched = 1
+		}
+		if wl != nil && err == nil {
+			// the caller recycles its slice: the list must not notice
+			for i := range in {
+				in[i] = "RECYCLED"
+			}
+			kept2, uncap2 := spg.VerifWordListState(wl)
+			sort.Strings(kept2)
+			if !reflect.DeepEqual(CPsList(kept2), cell.Kept) || uncap2 != cell.Uncap || int(wl.Size()) != cell.Size {
+				cell.Aliased = 1
+			}
 		}
 		// key: everything observable except the (permuted) input itself
 		kc := cell
@@ -250,10 +273,19 @@ func wlCellEvents(id int, sc Scenario, seed int64, pre *spg.WLRecipe, preWL *spg
 		prod *big.Int
 	}
 	var leaves []lf
+	// a password handed out earlier must not change when a later one is generated (shared token buffers)
+	var lastP *spg.Password
+	var lastRes GenRes
 	body := func(res *GenRes) func() {
 		return func() {
 			p, err := rp.Generate()
 			*res = ResOf(p, err, nil)
+			if lastP != nil && !reflect.DeepEqual(ResOf(lastP, nil, nil), lastRes) {
+				cell.PrevChg++
+			}
+			if err == nil && p != nil {
+				lastP, lastRes = p, *res
+			}
 		}
 	}
 	visit := func(plan []uint32, out RunOut, res GenRes) {
